@@ -62,6 +62,13 @@ class GroupSim:
                 n = Node(recv[1].fields.get("tag", ("unset", "tag")), None)
                 n.made_by = (recv[1], "toProtocolTreeNode")
                 return ("node", n)
+        def payload_is_skdm_only(it, recv, args, kwargs, env, depth, e):
+            """the converter's question "is this payload nothing but a sender-key distribution": in the payload model that is
+            - no payload kind (not even an unmodelled one) and a key distribution present"""
+            if recv[0] == "obj" and recv[1].cls is not None and recv[1].cls.name == "AttributesConverter":
+                it.domains.setdefault(ATOM_PAYLOAD, list(PAYLOAD_KINDS))
+                return ("c", it.ask(ATOM_PAYLOAD) is None and bool(it.ask(ATOM_SKDM)))
+        h["method:protobytes_is_key_distribution_only"] = payload_is_skdm_only
         h["method:toProtocolTreeNode"] = opaque_serialise
         h["method:protobytes_to_message"] = payload_message
         h["method:proto_to_message"] = payload_message
@@ -70,6 +77,9 @@ class GroupSim:
     def new_interp(self, cell, domains):
         it = Interp(self.repo, cell, domains, hooks=self.hooks())
         it.layer_base = self.runner.base
+        # the text of a plain message is a string the peer chose - the empty string included: whether it is truthy is not
+        # known (every other payload kind is an object)
+        it.maybe_falsy = lambda v: v[1] == "payload:conversation"
         return it
 
     def make_group(self, it, classes=None):
